@@ -112,5 +112,6 @@ if __name__ == "__main__":
         print(f"{n}: {verdict}   rewrites: {stats}", flush=True)
         out[n] = {"verdict": verdict, "rewrites": stats}
         bad += verdict.startswith("FAIL")
-    json.dump(out, open(f"{V}/benign/NORMALISER_SELFTEST.json", "w"), indent=1, sort_keys=True)
+    dest = os.environ.get("NORMTEST_OUT") or f"{V}/benign/NORMALISER_SELFTEST.json"
+    json.dump(out, open(dest, "w"), indent=1, sort_keys=True)
     sys.exit(1 if bad else 0)
